@@ -23,6 +23,19 @@ def skeleton(depth, syms, tag='r', leaves_only=False):
     return L.U(out)
 
 
+def shaped(shape, syms, tag='r'):
+    """partly concretised skeleton: an int is a full skeleton of that depth; ('I', s) / ('S', s1, s2) /
+    ('C', s1, s2) fix the operator at that node (cube splitting on the operator choice)"""
+    import gambatools.regexp as R
+    if isinstance(shape, int):
+        return skeleton(shape, syms, tag)
+    op = shape[0]
+    if op == 'I':
+        return R.Iteration(shaped(shape[1], syms, tag + 'i'))
+    cls = R.Sum if op == 'S' else R.Concat
+    return cls(shaped(shape[1], syms, tag + 'l'), shaped(shape[2], syms, tag + 'r'))
+
+
 class Sem:
     """w in L(value) as a literal, for engine values that denote regular expressions (unions of
     Regexp objects whose fields are again such values). Memoised on object identity."""
